@@ -242,7 +242,10 @@ func TestVerifC05Mult(t *testing.T) {
 		case "doubleMult":
 			var Q pointR1
 			if !Q.FromBytes(c.Encode(pts[pi])) {
-				t.Fatalf("SELFTEST-FAIL FromBytes refused a canonical point of the reference")
+				// the decoder verification uses refuses the canonical encoding of a curve point: the same
+				// defect TestVerifC05Decode reports
+				vlib.Report(t, "C05/whitebox/ed25519.FromBytes/rejects-valid", fmt.Sprintf("in=%x (canonical encoding of reference point#%d)", c.Encode(pts[pi]), pi))
+				return
 			}
 			P.doubleMult(&Q, vlib.LE(m, 32), vlib.LE(n, 32))
 			got = c05Enc(&P)
